@@ -79,6 +79,11 @@ def _check_read(case):
         rf = gen.generateSilence
     elif repl == "sine":
         rf = gen.buildSineWaveGenerator(200, None)
+    calls = []
+    if repl == "numbered":      # a generator that is not a pure function of the duration: its n-th call returns samples that all hold n
+        def rf(duration):
+            calls.append(duration)
+            return W.pack([len(calls)] * int(round(duration * rate)), width)
     af = wave.open(fn, "r")
     try:
         st, fr, _ = call(audio.readFramesAtTimes, af, L if kind == "keep" else None, L if kind == "delete" else None, rf)
@@ -105,12 +110,18 @@ def _check_read(case):
         if cur < N:
             marks.append(("delete" if kind == "keep" else "keep", cur, F(N)))
     pieces = []
+    ngen = 0
     for m, a, b in marks:
         if m == "keep":
             pieces.append(("keep", a, b))
         elif rf is not None:
             n = round(b - a)  # generated audio of the same duration: round(rate x duration) samples
-            pieces.append(("gen", n, (lambda k: [0] * k) if repl == "silence" else (lambda k: _sine(k, width, rate))))
+            ngen += 1
+            pieces.append(("gen", n, (lambda k: [0] * k) if repl == "silence" else (lambda k, j=ngen: [j] * k) if repl == "numbered"
+                           else (lambda k: _sine(k, width, rate))))
+    if repl == "numbered" and len(calls) != ngen:
+        return 1, "!", None, [Viol("read-generator-call-count", f"{tag}: the replacement generator was called {len(calls)} times (durations {calls}) for {ngen} "
+                                                                f"dropped stretches: each dropped stretch is replaced by audio generated for it")]
     ok = _match(out, 0, pieces, 0, s)
     viols = []
     if not ok:
@@ -454,6 +465,11 @@ def parts(tier):
                     for kind in ("keep", "delete"):
                         for repl in (None, "silence", "sine"):
                             yield (width, rate, ivs, off, kind, repl)
+        # a replacement generator with a memory (numbered output): every dropped stretch gets the audio generated for it, in order
+        for width, rate in combos:
+            for ivs in sets:
+                for kind in ("keep", "delete"):
+                    yield (width, rate, ivs, False, kind, "numbered")
         # the same intervals handed over as a tuple, as lists, as a one-shot iterator and as a generator
         for width, rate in combos[:1] + combos[3:4]:
             for ivs in sets:
